@@ -8,7 +8,10 @@ CHECKS = {}
 def check(pid, level, text, note, technique, engine, ref):
     CHECKS[pid] = dict(level=level, text=text, note=note, technique=technique, engine=engine, ref=ref)
 
-exec(open(os.path.join(V, "bin", "manifest_table.py")).read())
+NOT_YET = {}
+import glob
+for _f in sorted(glob.glob(os.path.join(V, "bin", "manifest.d", "*.py"))):
+    exec(open(_f).read())
 
 hooks_commits = subprocess.run(["git", "-C", "/repo", "log", "--format=%h %s", "--grep=^verif hooks"],
                                capture_output=True, text=True).stdout.strip().splitlines()
